@@ -16,7 +16,7 @@ func init() {
 		ID:          "C02",
 		Level:       "other",
 		Run:         runC02,
-		Explanation: "Per-opcode conformance by term identity: for each of the InstructionRunner implementers the abstract interpreter (E-TERM) computes the normal-form term of Run/MemoryRead/MemoryWrite/ReadRegisters/WriteRegisters, rewrites receiver fields into assembly operands through the parser's binding, and compares it syntactically with the RV32IM row (operators carry Go operand types, so signedness, shift kind and 5-bit count masking are part of the term). A matched term is an identity of expressions over all 2^64 operand pairs, not a sample. Also: exact read/write sets, zero-register filter, purity (no write to ctx/globals/receiver), enumeration tables.",
+		Explanation: "Per-opcode conformance by term identity: for each of the InstructionRunner implementers the abstract interpreter (E-TERM) computes the normal-form term of Run/MemoryRead/MemoryWrite/ReadRegisters/WriteRegisters, rewrites receiver fields into assembly operands through the parser's binding, and compares it syntactically with the RV32IM row (operators carry Go operand types, so signedness, shift kind and 5-bit count masking are part of the term). A matched term is an identity of expressions over all 2^64 operand pairs, not a sample. Also: exact read/write sets, zero-register filter, purity (no write to ctx/globals/receiver), enumeration tables; R02.7 the word codec the loads and stores are built on is a little-endian bijection (the bit-level proof of C16); R02.8 the write units keep the result of the instruction that causes a flush (strict sequence filter: the link register of a jal/jalr is written).",
 		Assumptions: []string{
 			"Go's specified semantics of integer operators and conversions",
 			"the RV32IM table in spec_rv32im.go is a faithful transcription (division by zero is an error value by C07)",
@@ -103,6 +103,13 @@ func stateWrites(t *Term) []string {
 }
 
 func runC02(r *Run) {
+	// R02.7: the word codec the loads and stores are built on is a little-endian bijection (C16's proof);
+	// R02.8: the write units keep the result of the instruction that causes a flush (strict filter), so
+	// the link register of a jal/jalr is written
+	r.floor("R02.7", 12)
+	importRules(r, runC16, map[string]string{"R16.2": "R02.7", "R16.3": "R02.7", "R16.4": "R02.7"})
+	r.floor("R02.8", 7)
+	ruleWriteUnitFilter(r, "R02.8")
 	a := analyseISA(r.W)
 	for _, p := range a.problems {
 		r.undecided("R02.0", "anchor", token.NoPos, "%s", p)
